@@ -645,4 +645,131 @@ Section Inv.
         eapply SlotIs_ext; [|exact Q]. intros q. rewrite !ED_left_empty by lia. reflexivity.
       + eapply SlotIs_frame; eassumption.
   Qed.
+  (* the zero-initialised buffer before the first row *)
+  Lemma row_init_first :
+    let s' := row_init e (st0 e) (- e_R e) in
+    Slots s' (- e_R e) (- e_R e - 1) /\ AccInv s' (- e_R e) (- e_R e - 1) /\ FineInv s' (- e_R e) (- e_R e - 1) /\
+    s_row s' = - e_R e.
+  Proof.
+    cbv zeta. assert (HL : length (s_cols (st0 e)) = Z.to_nat (e_SL e)) by (unfold st0; cbn [s_cols]; apply repeat_length).
+    destruct (row_init_fields (st0 e) (- e_R e) HL) as (L' & R' & A' & N' & T' & Fl).
+    set (s' := row_init e (st0 e) (- e_R e)) in *.
+    assert (Z0 : forall o k, 0 <= o < e_SL e -> get_p k (slot s' o) = piece0 /\ get_n k (slot s' o) = 0).
+    { intros o k Ho. destruct (Fl o k Ho) as [P N]. rewrite P, N.
+      assert (E : slot (st0 e) o = column0) by (unfold slot, st0, getz; cbn [s_cols]; apply nth_repeat).
+      rewrite E. destruct (_ || _); destruct k; split; reflexivity. }
+    destruct (acc_fine_fresh s' (- e_R e) A' N' T') as [AI FI].
+    split; [|split; [exact AI|split; [exact FI|exact R']]].
+    split; [exact L'|]. split; [|split].
+    - intros c' Hc'. destruct (ix_nonneg (- e_R e) c') as (B & _ & _).
+      destruct (Z0 _ TL B) as [P1 N1]. destruct (Z0 _ BR B) as [P2 N2].
+      unfold CTL, CBR. destruct (Z.leb_spec c' (- e_R e - 1)); [lia|].
+      split; apply SlotIs_zero; try assumption; intros q; apply above_empty; try lia; [apply bTL_dy|apply bBR_dy].
+    - intros c' Hc'. destruct (ix_nonneg (- e_R e) c') as (_ & B & _).
+      destruct (Z0 _ TR B) as [P1 N1]. destruct (Z0 _ BL B) as [P2 N2].
+      unfold CTR, CBL. destruct (Z.leb_spec c' (- e_R e - 1)).
+      + split; apply SlotIs_zero; try assumption; intros q; [apply TR_left_empty|apply BL_left_empty]; lia.
+      + split; apply SlotIs_zero; try assumption; intros q; apply above_empty; try lia; [apply bTR_dy|apply bBL_dy].
+    - intros c' Hc'. destruct (ix_nonneg (- e_R e) c') as (_ & _ & B).
+      destruct (Z0 _ ED B) as [P1 N1].
+      unfold CED. destruct (Z.leb_spec c' (- e_R e - 1)).
+      + apply SlotIs_zero; try assumption; intros q; apply ED_left_empty; lia.
+      + apply SlotIs_zero; try assumption; intros q; apply above_empty; try lia; apply bED_dy.
+  Qed.
+
+  (* ---------------------------------------------------------------- the loops *)
+
+  Lemma fold_zrange_inv {A} (P : Z -> A -> Prop) (f : A -> Z -> A) : forall n lo a,
+    P (lo - 1) a -> (forall c a, lo <= c < lo + Z.of_nat n -> P (c - 1) a -> P c (f a c)) ->
+    P (lo + Z.of_nat n - 1) (fold_left f (zrange_n lo n) a).
+  Proof.
+    induction n as [|n IH]; intros lo a H0 Hs; cbn [zrange_n fold_left].
+    - replace (lo + Z.of_nat 0 - 1) with (lo - 1) by lia. exact H0.
+    - replace (lo + Z.of_nat (S n) - 1) with (lo + 1 + Z.of_nat n - 1) by lia. apply IH.
+      + replace (lo + 1 - 1) with lo by lia. apply Hs; [lia|exact H0].
+      + intros c a' Hc. apply Hs. lia.
+  Qed.
+
+  Definition P1 (row c : Z) (s : st) : Prop :=
+    s_row s = row /\ Slots s row c /\ AccInv s row c /\ FineInv s row c.
+
+  Definition Good (row j v : Z) : Prop :=
+    ewin row j <> [] -> RankOf (ewin row j) (rank_pos (Z.of_nat (length (ewin row j))) (e_percent e)) v.
+  Definition OutRow (row c : Z) (acc : list Z) : Prop :=
+    Z.of_nat (length acc) = c + 1 /\ forall j, 0 <= j <= c -> Good row j (nth (Z.to_nat (c - j)) acc 0).
+  Definition RowGood (i : Z) (r : list Z) : Prop :=
+    Z.of_nat (length r) = e_cols e /\ forall j, 0 <= j < e_cols e -> Good i j (nth (Z.to_nat j) r 0).
+  Definition OutOK (row : Z) (out : list (list Z)) : Prop :=
+    Z.of_nat (length out) = Z.max 0 (row + 1) /\ forall i, 0 <= i <= row -> RowGood i (nth (Z.to_nat (row - i)) out []).
+  Definition Q (row : Z) (so : st * list (list Z)) : Prop :=
+    s_row (fst so) = row /\ Slots (fst so) row (e_cols e + e_R e - 1) /\ OutOK row (snd so).
+
+  Lemma P1_step row c s : - e_R e <= c <= e_cols e + e_R e - 1 -> P1 row (c - 1) s -> P1 row c (step_col e s c).
+  Proof.
+    intros Hc (Hr & HS & HA & HF). destruct (step_col_inv s row c Hc Hr HS HA HF) as (S' & A' & F' & R' & _).
+    refine (conj _ (conj _ (conj _ _))); assumption.
+  Qed.
+
+  Lemma do_row_inv (so : st * list (list Z)) (row : Z) : - e_R e <= row < e_rows e ->
+    (row = - e_R e /\ so = (st0 e, [])) \/ (- e_R e < row /\ Q (row - 1) so) ->
+    Q row (do_row e so row).
+  Proof.
+    intros Hrow Hstart. destruct so as [s out]. unfold do_row.
+    assert (Hinit : P1 row (- e_R e - 1) (row_init e s row)).
+    { destruct Hstart as [[-> E]|[Hgt (Hr & HS & _)]].
+      - inversion E; subst. destruct row_init_first as (A & B & C & D). refine (conj _ (conj _ (conj _ _))); assumption.
+      - cbn [fst] in *. destruct (row_init_inv s row Hr HS) as (A & B & C & D). refine (conj _ (conj _ (conj _ _))); assumption. }
+    assert (Hout0 : OutOK (row - 1) out \/ (row = - e_R e /\ out = [])).
+    { destruct Hstart as [[-> E]|[Hgt (_ & _ & HO)]]; [right; inversion E; auto|left; exact HO]. }
+    set (s1 := row_init e s row) in *. rewrite Hsw.
+    destruct (0 <=? row) eqn:Erow.
+    - (* an image row *)
+      assert (H1 : P1 row (-1) (fold_left (step_col e) (zrange (- e_R e) 0) s1)).
+      { unfold zrange. replace (-1) with (- e_R e + Z.of_nat (Z.to_nat (0 - - e_R e)) - 1) by lia.
+        apply (fold_zrange_inv (P1 row)); [exact Hinit|]. intros c a Hc. apply P1_step. lia. }
+      set (s2 := fold_left (step_col e) (zrange (- e_R e) 0) s1) in *.
+      (* columns of the image *)
+      set (stepf := fun (sa : st * list Z) col => let '(s, acc) := sa in let '(s, v) := find_median e (step_col e s col) in (s, v :: acc)).
+      assert (H2 : (fun c (sa : st * list Z) => P1 row c (fst sa) /\ OutRow row c (snd sa)) (e_cols e - 1)
+                     (fold_left stepf (zrange 0 (e_cols e)) (s2, []))).
+      { unfold zrange. replace (e_cols e - 1) with (0 + Z.of_nat (Z.to_nat (e_cols e - 0)) - 1) by lia.
+        apply (fold_zrange_inv (fun c (sa : st * list Z) => P1 row c (fst sa) /\ OutRow row c (snd sa))).
+        - cbn [fst snd]. replace (0 - 1) with (-1) by lia. split; [exact H1|]. split; [reflexivity|intros; lia].
+        - intros c [sa acc] Hc [HP HO]. cbn [fst snd] in *. unfold stepf.
+          pose proof (P1_step row c sa ltac:(lia) HP) as (Hr' & HS' & HA' & HF').
+          destruct (step_col_inv sa row c ltac:(lia) (proj1 HP) (proj1 (proj2 HP)) (proj1 (proj2 (proj2 HP))) (proj2 (proj2 (proj2 HP))))
+            as (_ & _ & _ & _ & Hcol').
+          pose proof (find_median_spec (step_col e sa c) row c Hr' Hcol' ltac:(lia) HS' HA' HF') as FM. cbv zeta in FM.
+          destruct (find_median e (step_col e sa c)) as [s3 v]. cbn [fst snd] in *.
+          destruct FM as (S3 & A3 & F3 & R3 & _ & G3).
+          split; [refine (conj _ (conj _ (conj _ _))); assumption|]. destruct HO as [LO GO]. split; [cbn [length]; lia|].
+          intros j Hj. destruct (Z.eq_dec j c) as [->|Hne].
+          + replace (Z.to_nat (c - c)) with O by lia. cbn [nth]. exact G3.
+          + replace (Z.to_nat (c - j)) with (S (Z.to_nat (c - 1 - j))) by lia. cbn [nth]. apply GO. lia. }
+      fold stepf.
+      destruct (fold_left stepf (zrange 0 (e_cols e)) (s2, [])) as [s3 orow]. cbn [fst snd] in H2.
+      destruct H2 as [(R3 & S3 & _ & _) [LO GO]].
+      (* the columns right of the image *)
+      assert (H3 : (fun c s => s_row s = row /\ Slots s row c) (e_cols e + e_R e - 1)
+                     (fold_left (fun s col => update_loc e (set_col s col)) (zrange (e_cols e) (e_cols e + e_R e)) s3)).
+      { unfold zrange. replace (e_cols e + e_R e - 1) with (e_cols e + Z.of_nat (Z.to_nat (e_cols e + e_R e - e_cols e)) - 1) by lia.
+        apply (fold_zrange_inv (fun c s => s_row s = row /\ Slots s row c)); [split; assumption|].
+        intros c a Hc [Hr' HS']. destruct (slots_step a row c ltac:(lia) Hr' HS') as (X & Y & _). split; assumption. }
+      destruct H3 as [R4 S4]. unfold Q. cbn [fst snd]. split; [exact R4|]. split; [exact S4|].
+      (* the output rows *)
+      assert (HRG : RowGood row (rev orow)).
+      { split; [rewrite rev_length; lia|]. intros j Hj. rewrite rev_nth by lia.
+        replace (length orow - S (Z.to_nat j))%nat with (Z.to_nat (e_cols e - 1 - j)) by lia. apply GO. lia. }
+      split; [cbn [length]; destruct Hout0 as [[L0 _]|[-> ->]]; cbn [length]; lia|].
+      intros i Hi. destruct (Z.eq_dec i row) as [->|Hne].
+      + replace (Z.to_nat (row - row)) with O by lia. exact HRG.
+      + replace (Z.to_nat (row - i)) with (S (Z.to_nat (row - 1 - i))) by lia. cbn [nth].
+        destruct Hout0 as [[_ G0]|[-> _]]; [apply G0; lia|lia].
+    - (* a row above the image: the whole sweep, no output *)
+      assert (H1 : P1 row (e_cols e + e_R e - 1) (fold_left (step_col e) (zrange (- e_R e) (e_cols e + e_R e)) s1)).
+      { unfold zrange. replace (e_cols e + e_R e - 1) with (- e_R e + Z.of_nat (Z.to_nat (e_cols e + e_R e - - e_R e)) - 1) by lia.
+        apply (fold_zrange_inv (P1 row)); [exact Hinit|]. intros c a Hc. apply P1_step. lia. }
+      destruct H1 as (R2 & S2 & _ & _). unfold Q. cbn [fst snd]. split; [exact R2|]. split; [exact S2|].
+      split; [destruct Hout0 as [[L0 _]|[-> ->]]; cbn [length]; lia|intros; lia].
+  Qed.
 End Inv.
